@@ -204,9 +204,13 @@ def haltOp (c : Cl) (k id : String) : Cl × String :=
               | (_, none) => none
               | (t, some i) =>
                 let e1 := { pe with locks := t, held := some i }
-                let e2 := match Recovery.rollbackJournal e1 with
-                  | .ok s1 => (match checkpointNoLock s1 with | .ok s2 => s2 | .error _ => s1)
-                  | .error _ => e1
+                -- the recovery step (journal rollback, checkpoint) can fail: the request is refused
+                -- and the write lock given back
+                match (match Recovery.rollbackJournal e1 with
+                  | .ok s1 => (match checkpointNoLock s1 with | .ok s2 => some s2 | .error _ => none)
+                  | .error _ => none) with
+                | none => none
+                | some e2 =>
                 some ({ (c.setNode p { pn with eng := e2 }) with halt := some (p, id, c.ttlShort, e2.posTxid, e2.posChk) }, e2.posTxid, e2.posChk)
           match granted with
           | none => (c, "err")
